@@ -40,7 +40,7 @@ RULE = ('engine: every position-tagged stream of length n over a 3-symbol pointe
         '(giant, fixed sizes, single/pair cuts at +-1 of structure boundaries, byte windows, random, empty chunks, '
         'interleaved queries). non-trivial = stream carries a signature or structured header and the schedule has '
         '>= 2 chunks; distinct by (stream digest, schedule digest)')
-REQUIRED_CLAUSES = ['I-instance-isolation', 'E-region-exactness-backward-pointers', 'R-region-exactness', 'V-verdict-invariance', 'Q-queries-pure', 'E-engine-slice-semantics',
+REQUIRED_CLAUSES = ['O-carrier-and-options-invariance', 'W-short-read-source', 'I-instance-isolation', 'E-region-exactness-backward-pointers', 'R-region-exactness', 'V-verdict-invariance', 'Q-queries-pure', 'E-engine-slice-semantics',
                     'W-wrapper-verdict-invariance', 'actual-size']
 ASSUMPTIONS = ['ground truth for regions is the presented stream itself (slice semantics)',
                'known findings F1 F3 are attributed by input-only predicates (vlib/known.py, imagegen.vhdx_backward)']
@@ -342,9 +342,17 @@ def eval_stream(ctx, case):
     for name in case['inspectors']:
         cls = F.ALL_FORMATS[name]
         ref = None
-        for klass, cuts, empties, queries in case['schedules']:
-            res = sl.feed(cls, data, cuts, empties=empties, queries=queries)
-            ctx.case((name, data, tuple(cuts), tuple(empties), queries), nontrivial=sig_present and len(cuts) >= 1)
+        for sched in case['schedules']:
+            klass, cuts, empties, queries = sched[:4]
+            opt = sched[4] if len(sched) > 4 else {}
+            if opt.get('wrapper_only'):
+                continue
+            res = sl.feed(cls, data, cuts, empties=empties, queries=queries, carrier=opt.get('carrier', 'bytes'),
+                          ctor_kw={'tracing': True} if opt.get('tracing') else None)
+            if opt:
+                ctx.clause('O-carrier-and-options-invariance')
+            ctx.case((name, data, tuple(cuts), tuple(empties), queries, tuple(sorted(opt.items()))),
+                     nontrivial=sig_present and len(cuts) >= 1)
             ctx.h('inspector x schedule class', '%s/%s' % (name, klass.split('-')[0]))
             ctx.clause('R-region-exactness', res['monitor'].evals)
             ctx.clause('actual-size')
@@ -361,16 +369,24 @@ def eval_stream(ctx, case):
                 ctx.clause('Q-queries-pure')
             ctx.clause('V-verdict-invariance')
             if v != ref[4]:
-                ctx.fail('V-verdict-invariance' if not queries else 'Q-queries-pure',
-                         dict(case, failing=[name, [ref[0], ref[1], ref[2], ref[3]], [klass, cuts, empties, queries]]),
+                ctx.fail('O-carrier-and-options-invariance' if opt else
+                         'V-verdict-invariance' if not queries else 'Q-queries-pure',
+                         dict(case, failing=[name, [ref[0], ref[1], ref[2], ref[3]], [klass, cuts, empties, queries, opt]]),
                          {'inspector': name, 'schedule_a': ref[0], 'verdict_a': ref[4],
                           'schedule_b': klass, 'verdict_b': v, 'cuts_b': cuts[:8]},
                          known=known_for_inspector(name, data))
     if case.get('wrapper'):
         ref = None
-        for klass, cuts, empties, queries in case['schedules']:
-            res = sl.feed_wrapper(data, cuts, queries=queries, empties=empties)
-            ctx.case(('wrapper', data, tuple(cuts), tuple(empties), queries), nontrivial=sig_present and len(cuts) >= 1)
+        for sched in case['schedules']:
+            klass, cuts, empties, queries = sched[:4]
+            opt = sched[4] if len(sched) > 4 else {}
+            if opt and not opt.get('wrapper_only'):
+                continue
+            res = sl.feed_wrapper(data, cuts, queries=queries, empties=empties, short_reads=opt.get('short_reads'))
+            if opt.get('short_reads'):
+                ctx.clause('W-short-read-source')
+            ctx.case(('wrapper', data, tuple(cuts), tuple(empties), queries, tuple(sorted(opt.items()))),
+                     nontrivial=sig_present and len(cuts) >= 1)
             ctx.h('inspector x schedule class', 'wrapper/%s' % klass.split('-')[0])
             for nm, mon in res['monitors'].items():
                 ctx.clause('R-region-exactness', mon.evals)
@@ -461,12 +477,25 @@ def make_schedules(rng, n, bounds, count, max_chunks=70000):
     for klass, cuts, _e, _q in rng.sample(scheds, min(len(scheds), max(2, count // 3))):
         if len(cuts) <= 300:
             extra.append([klass + '+queries', cuts, [], True])
+    # variants: how the chunk object is carried (one reused bytearray / memoryview slices of one buffer, overwritten after
+    # every eat_chunk), an inspector constructed with tracing=True, a source that returns short reads through the wrapper
+    for klass, cuts, _e, _q in rng.sample(scheds, min(len(scheds), max(3, count // 3))):
+        if len(cuts) <= 3000:
+            extra.append([klass + '+' + 'bytearray', cuts, [], False, {'carrier': 'bytearray'}])
+            extra.append([klass + '+' + 'memoryview', cuts, [], False, {'carrier': 'memoryview'}])
+    for klass, cuts, _e, _q in rng.sample(scheds, min(len(scheds), 2)):
+        if len(cuts) <= 3000:
+            extra.append([klass + '+tracing', cuts, [], False, {'tracing': True}])
+    for klass, cuts, _e, _q in rng.sample(scheds, min(len(scheds), max(2, count // 4))):
+        if 1 <= len(cuts) <= 3000:
+            extra.append([klass + '+shortreads', cuts, [], False, {'wrapper_only': True, 'short_reads': True}])
     return scheds + extra
 
 
 
 MINIMAL = [
     {'gen': 'qcow2', 'params': {'total': 512}}, {'gen': 'qcow2', 'params': {'total': 700, 'version': 2}},
+    {'gen': 'qcow2', 'params': {'total': 600, 'version': 3, 'exts': [[0x44415441, 5], [0x6803F857, 48], [0xE2792ACA, 5]]}},
     {'gen': 'vhd', 'params': {'total': 512}}, {'gen': 'vdi', 'params': {'total': 512}}, {'gen': 'qed', 'params': {'total': 512}},
     {'gen': 'gpt', 'params': {'total': 512}}, {'gen': 'mbr', 'params': {'total': 600}},
     {'gen': 'luks', 'params': {'payload': 1, 'total': 700}},
@@ -502,6 +531,10 @@ def run_every_cut(ctx, idx0):
             cuts_block = positions[b0:b0 + block]
             scheds = [['giant', [], [], False]] + [['every-cut', [c], [], False] for c in cuts_block]
             scheds += [['every-cut+empty', [c], [1], False] for c in cuts_block[::4]]
+            scheds += [['every-cut+bytearray', [c], [], False, {'carrier': 'bytearray'}] for c in cuts_block[1::4]]
+            scheds += [['every-cut+memoryview', [c], [], False, {'carrier': 'memoryview'}] for c in cuts_block[2::4]]
+            scheds += [['every-cut+shortreads', [c], [], False, {'wrapper_only': True, 'short_reads': True}]
+                       for c in cuts_block[3::4]]
             case = {'kind': 'stream', 'spec': spec, 'inspectors': [name], 'schedules': scheds,
                     'wrapper': n <= 3000, 'structured': True}
             ctx.h('format x stream class', '%s/every-cut' % spec['gen'])
